@@ -55,7 +55,11 @@ class Formula(object):
 
         for phi in subformulas:
             if isinstance(phi, bool):
-                self._subformula.append(Lang.Bool(phi))
+                phi = Lang.Bool(phi)
+                if not isinstance(phi, FormulaClass):
+                    raise TypeError(err_msg(phi))
+
+                self._subformula.append(phi)
             else:
                 if not isinstance(phi, FormulaClass):
                     if (isinstance(phi, Lang.Formula) or
